@@ -93,6 +93,22 @@ func evalLit(l Lit, env map[string]int64, assume map[string]bool) (bool, bool) {
 	}
 	v, ok := evalBool(l.Cond, env)
 	if !ok {
+		// a loop-control flag (`running := true; for running { … running = false }`): a bool
+		// phi fed only by constants.  On a path into the loop body it holds; it carries no
+		// information about the data the predicate is about.
+		if ph, isPhi := l.Cond.(*ssa.Phi); isPhi {
+			allConst := len(ph.Edges) > 0
+			for _, e := range ph.Edges {
+				if _, isC := e.(*ssa.Const); !isC {
+					if e2, isP := e.(*ssa.Phi); !isP || e2 != ph {
+						allConst = false
+					}
+				}
+			}
+			if allConst {
+				return l.Pol, true
+			}
+		}
 		return false, false
 	}
 	if !l.Pol {
